@@ -218,6 +218,7 @@ type world struct {
 	otherDn string
 	proposer []byte
 	plog     *parkLogger
+	setupErr string // a setup transaction of the funding block was rejected (state left behind by an EARLIER case of this process)
 	bankDn   string // bank denom mapped to the ERC20 (funtoken cases)
 	O       evmtest.EthPrivKeyAcc // owner of a TestERC20 mapped to a bank denom (only for call_s2b cases)
 	erc20   gethcommon.Address
@@ -293,12 +294,14 @@ func (w *world) setupFunToken(t *testing.T) {
 		t.Fatal(err)
 	}
 	if r := c.DeliverEth(msg); r.Code != 0 {
-		t.Fatalf("deploy TestERC20: %s", r.Log)
+		w.setupErr = "deploy TestERC20: " + r.Log
+		return
 	}
 	w.erc20 = crypto.CreateAddress(w.O.EthAddr, 0)
 	erc := eth.EIP55Addr{Address: w.erc20}
 	if r := c.DeliverCosmos(setup, 5_000_000, Unibi(1_000_000), &evm.MsgCreateFunToken{FromErc20: &erc, Sender: saddr.String()}); r.Code != 0 {
-		t.Fatalf("create funtoken from erc20: %s", r.Log)
+		w.setupErr = "create funtoken: " + r.Log
+		return
 	}
 	w.bankDn = "erc20/" + w.erc20.Hex()
 	// O converts some ERC20 into the bank denom, so that a request can send it back to the EVM (sendToEvm burns it)
@@ -309,7 +312,8 @@ func (w *world) setupFunToken(t *testing.T) {
 		t.Fatal(err)
 	}
 	if r := c.DeliverEth(msg); r.Code != 0 {
-		t.Fatalf("setup sendToBank: %s", r.Log)
+		w.setupErr = "setup sendToBank: " + r.Log
+		return
 	}
 }
 
@@ -628,6 +632,11 @@ func runReplica(t *testing.T, in *c09Input, withQueries bool) runOut {
 	w := newWorld(t, in)
 	c := w.c
 	out := runOut{qres: []string{}, qgas: []int64{}}
+	if w.setupErr != "" {
+		// not a verdict about this case's requests, but something a previous request of this process left behind:
+		// reported as an observable difference (the first violating case of the trace is the culprit)
+		out.panicked = "setup: " + w.setupErr
+	}
 	inject := func() {
 		if !withQueries || out.injected {
 			return
@@ -816,7 +825,8 @@ func runCase(t *testing.T, in *c09Input) c09Obs {
 	}
 	with := runReplica(t, in, true)
 	return c09Obs{
-		HashEq: base.hash == with.hash, NextEq: base.next == with.next && base.baseFee == with.baseFee, TxEq: bytes.Equal(base.tx, with.tx),
+		HashEq: base.hash == with.hash && !strings.HasPrefix(with.panicked, "setup:") && !strings.HasPrefix(base.panicked, "setup:"),
+		NextEq: base.next == with.next && base.baseFee == with.baseFee, TxEq: bytes.Equal(base.tx, with.tx),
 		TxOK: with.txOK, BaseOK: base.txOK, Base: base.bal, With: with.bal, Gas: [2]int64{base.gas, with.gas},
 		Gas2: [2]int64{base.gas2, with.gas2},
 		QRes: with.qres, QGas: with.qgas, Injected: with.injected, Parked: with.parked,
